@@ -208,6 +208,41 @@ def default_fresh_ok(d, kind):
     return jeq(get(second), want) and jeq(get(third), want) and get(second) is not get(third)
 
 
+def repeated_default_ok(kind, m, d, k):
+    """object defaults used more than once: every construction that omits the value gives what the first one gave, an invalid
+    object default comes back exactly as declared, and the declared default itself is never edited"""
+    from vf.common import Object, Element, Property, Integer, NotPassed, jeq, jcopy, verdict, result_eq
+
+    declared = {"name": d}
+    if kind == 0:  # class-level default next to a key-counting keyword; valid iff d >= m
+        make = lambda: Object.inline("M", properties={"name": Property(Integer(minimum=m)), "size": Property(Integer()), "s_": Property(Integer(), source="s")},
+                                     maxProperties=1 + k % 2, default=jcopy(declared))
+        build = lambda M: M(NotPassed())
+    elif kind == 1:  # untyped element default
+        make = lambda: Element(properties={"name": Property(Integer(minimum=m)), "size": Property(Integer())}, propertyNames=Element(maxLength=4 + k % 2), default=jcopy(declared))
+        build = lambda M: M(NotPassed())
+    else:  # nested: the parent is built with the nested property omitted
+        inner = lambda: Object.inline("In", properties={"name": Property(Integer(minimum=m)), "size": Property(Integer())}, maxProperties=1 + k % 2, default=jcopy(declared))
+        make = lambda: Object.inline("Out", properties={"in_": Property(inner(), source="in")})
+        build = lambda M: M({}).in_
+    M = make()
+    first = build(M)
+    second = build(M)
+    third = build(M)
+    if not (result_eq(first, second) and result_eq(second, third)):
+        return False
+    fresh = build(make())
+    if not result_eq(first, fresh):
+        return False
+    valid = d >= m
+    if not valid:
+        # returned as-is: exactly the declared value
+        if not (isinstance(first, dict) and jeq(dict(first), declared)):
+            return False
+    holder = M if kind < 2 else M.properties["in_"].element
+    return jeq(holder.default, declared)
+
+
 def harnesses(ctx) -> List[H]:
     hs: List[H] = []
     DV = "Dict[str, int]"
@@ -241,6 +276,8 @@ return not omitted_reached(make, v)
         hs.append(mk(f"c05_{name}__omitted", f"{hargs}, v: {vt}", pre, body, kind="witness", timeout=30, group="object"))
     hs.append(mk("c05_default_not_shared", "d: int, kind: int", ["0 <= kind < 4"], "return default_fresh_ok(d, concretize_int(kind, 0, 3))", timeout=120, group="object",
                  covers="container defaults (list, dict, nested list under a renamed property, bare array element): a second/third build is unaffected by mutating the first result"))
+    hs.append(mk("c05_repeated_object_default", "kind: int, m: int, d: int, k: int", ["0 <= kind < 3"], "return repeated_default_ok(concretize_int(kind, 0, 2), m, d, k)", timeout=120, group="object",
+                 covers="class-level / untyped / nested object defaults (valid or invalid by the solver's choice) next to maxProperties / propertyNames: three constructions and a fresh model agree, an invalid default comes back exactly as declared, the declared default is not edited"))
     bare = [
         ("integer", "m: int, d: int", [], "Integer(minimum=m, default=d)", "d"),
         ("untyped", "m: int, d: int", [], "Element(maximum=m, default=d)", "d"),
